@@ -804,3 +804,70 @@ def emptiness_guard(check: Check, funcs: Iterable[ast.AST], rule: str = "EMPTINE
     check.control(f"{rule}:bad", bool(swallowed_loops(fx.get("guard_bad"))), True)
     check.control(f"{rule}:ok", bool(swallowed_loops(fx.get("guard_ok"))), False)
     return n
+
+
+# --------------------------------------------------------------------------- #
+# ITER-MUTATION
+
+_MUTATORS = {"remove", "pop", "append", "insert", "extend", "clear", "discard", "add", "popitem", "update", "sort", "reverse"}
+
+
+def iter_mutations(fn: ast.AST) -> list[tuple[ast.For, ast.AST]]:
+    out = []
+    for loop in walk_body(fn):
+        if not isinstance(loop, (ast.For, ast.AsyncFor)):
+            continue
+        it = loop.iter
+        # `for k, v in d.items()` iterates d
+        if isinstance(it, ast.Call) and isinstance(it.func, ast.Attribute) and it.func.attr in ("items", "keys", "values") and not it.args:
+            it = it.func.value
+        if isinstance(it, ast.Call) and isinstance(it.func, ast.Name) and it.func.id == "enumerate" and it.args:
+            it = it.args[0]
+        if not isinstance(it, (ast.Name, ast.Attribute)):
+            continue  # list(xs), tuple(xs), sorted(xs) ... iterate a copy
+        subject = unparse(it)
+        for s in loop.body:
+            for c in ast.walk(s):
+                hit = None
+                if isinstance(c, ast.Call) and isinstance(c.func, ast.Attribute) and c.func.attr in _MUTATORS and unparse(c.func.value) == subject:
+                    hit = c
+                elif isinstance(c, ast.Delete) and any(isinstance(t, ast.Subscript) and unparse(t.value) == subject for t in c.targets):
+                    hit = c
+                elif isinstance(c, ast.Assign) and any(isinstance(t, ast.Subscript) and unparse(t.value) == subject and isinstance(loop.iter, ast.Call) for t in c.targets):
+                    hit = None  # replacing a value of an existing key while iterating items() is fine
+                if hit is not None:
+                    # `...; break` / `return` right after the mutation ends the iteration: fine
+                    st = hit
+                    while parent(st) is not None and not isinstance(st, ast.stmt):
+                        st = parent(st)
+                    blk = getattr(parent(st), "body", [])
+                    later = blk[blk.index(st) + 1:] if st in blk else []
+                    if later and isinstance(later[0], (ast.Break, ast.Return)):
+                        continue
+                    out.append((loop, hit))
+    return out
+
+
+def iter_mutation(check: Check, funcs: Iterable[ast.AST], rule: str = "ITER-MUTATION") -> int:
+    check.rule(
+        rule,
+        "a collection is not mutated inside a for loop that iterates over it directly (`for t in tasks: ... "
+        "tasks.remove(t)`): removing the current element makes the iterator skip the next one - of two adjacent "
+        "entries that must both be dropped (two deferred fragments under a nulled position) the second survives. "
+        "Loops over a copy (`list(xs)`) and a mutation immediately followed by break/return are fine",
+    )
+    n = 0
+    for fn in funcs:
+        loops = [l for l in walk_body(fn) if isinstance(l, (ast.For, ast.AsyncFor))]
+        if not loops:
+            continue
+        bad = iter_mutations(fn)
+        n += 1
+        check.ob(rule, fn, f"{getattr(fn, 'name', '?')}: no loop mutates what it iterates", not bad,
+                 f"{len(loops)} loop(s)" if not bad else
+                 f"`{node_text(bad[0][1], 50)}` (line {bad[0][1].lineno}) mutates `{unparse(bad[0][0].iter)}` while it is being iterated",
+                 nontrivial=bool(bad))
+    fx = fixture("generic_controls")
+    check.control(f"{rule}:bad", bool(iter_mutations(fx.get("itermut_bad"))), True)
+    check.control(f"{rule}:ok", bool(iter_mutations(fx.get("itermut_ok"))), False)
+    return n
